@@ -80,6 +80,10 @@ func (s *segment) Index(idx *index) error {
 		err = s.index(idx, e.value)
 		return err == nil
 	})
+	if err != nil {
+		s.indexes = s.indexes[:len(s.indexes)-1]
+		return err
+	}
 	return nil
 }
 
